@@ -364,10 +364,17 @@ func runC07(c *Ctx) {
 			ix, ok := eng.Unparen(l).(*ast.IndexExpr)
 			return ok && eng.IsField(info, ix.X, "dht/records.providerSet.set")
 		})
-		okSt := len(stores) == 1
+		okSt := len(stores) >= 1
 		if okSt {
-			ok2, _ := cf.MustPass(cf.Entry(), eng.LocSet(cf.Exits(true)...), eng.LocSet(cf.LocOf(stores[0])))
+			// every path passes one of the stores, and each stores the time parameter under the peer
+			ok2, _ := cf.MustPass(cf.Entry(), eng.LocSet(cf.Exits(true)...), eng.LocSet(locsOf(cf, stores)...))
 			okSt = ok2
+			for _, st := range stores {
+				ix := eng.Unparen(st.Lhs[0]).(*ast.IndexExpr)
+				if !eng.IsObj(info, ix.Index, pid) || !eng.IsObj(info, st.Rhs[0], paramObj(f, "t")) {
+					okSt = false
+				}
+			}
 		}
 		c.Check(K(f.Name, "records time"), f.Pos(), okSt, "setVal records the (new) timestamp on every path", "a path skips ps.set[p] = t")
 		g := c.Fn("(*" + pmT + ").GetProviders")
